@@ -9,7 +9,7 @@ from vt.core import L
 from vt.ref import tlv
 
 USES = ["view_settings", "view_settings_by_index", "view_raw", "view_raw_by_index", "decoder_rsa", "decoder_aes", "decoder_rand", "client",
-        "profile", "transform_get", "recover_get", "transform_post", "mutate", "session_rsa"]
+        "profile", "transform_get", "recover_get", "transform_post", "mutate", "session_rsa", "client_options"]
 _G = {}
 
 
@@ -99,6 +99,13 @@ def do_use(u, cfg, env):
         cl.run(cfg, dry_run=True, beacon_id=4, user="u", computer="c", process="p", internal_ip="10.0.0.1", arch="x64", pid=1000)
         return norm((cl.beacon_id, cl.aes_key, cl.hmac_key, cl.domain, cl.get_uri, cl.submit_uri, cl.sleeptime, cl.jitter, cl.user_agent, cl.host_header, cl.metadata.dumps(),
                      cl.c2http.transform_response.tsteps, cl.c2http.transform_response.rsteps))
+    if u == "client_options":
+        # a dry run with the rarely used keyword options (own Host header, user agent, domain, port, sleep settings)
+        random.seed(8)
+        cl = client_mod.HttpBeaconClient()
+        cl.run(cfg, dry_run=True, beacon_id=6, user="u", computer="c", process="p", internal_ip="10.0.0.2", arch="x86", pid=2000, host_header="own.example", user_agent="UA/1.0",
+               domain="override.example", port=8443, sleeptime=100, jitter=5)
+        return norm((cl.beacon_id, cl.domain, cl.get_uri, cl.submit_uri, cl.sleeptime, cl.jitter, cl.user_agent, cl.host_header, cl.c2http.transform_get.tsteps, cl.c2http.transform_submit.tsteps))
     if u == "profile":
         p = c2profile.C2Profile.from_beacon_config(cfg)
         out = (repr(p.tree), p.as_text())
@@ -142,8 +149,8 @@ def make_env():
     import inspect
 
     key = RSA.generate(1024, randfunc=random.Random(14).randbytes)
-    get_prog = [("_HEADER", b"Accept: */*"), ("BUILD", 0), ("BASE64URL", None), ("PREPEND", b"SESSION="), ("HEADER", b"Cookie"), ("_PARAMETER", b"v=1")]
-    post_prog = [("BUILD", 0), ("PARAMETER", b"id"), ("BUILD", 1), ("MASK", None), ("BASE64", None), ("PRINT", None)]
+    get_prog = [("_HEADER", b"Accept: */*"), ("_HOSTHEADER", b"Host: front.example"), ("BUILD", 0), ("BASE64URL", None), ("PREPEND", b"SESSION="), ("HEADER", b"Cookie"), ("_PARAMETER", b"v=1")]
+    post_prog = [("_HOSTHEADER", b"Host: front.example"), ("BUILD", 0), ("PARAMETER", b"id"), ("BUILD", 1), ("MASK", None), ("BASE64", None), ("PRINT", None)]
     recover = [("print", None), ("base64", None), ("prepend", 4), ("mask", None)]
     extra = [tlv.ptr(29, b"%windir%\\syswow64\\rundll32.exe", 64), tlv.ptr(30, b"%windir%\\sysnative\\rundll32.exe", 64), tlv.ptr(51, tlv.execute_list([1, 4, (6, 16, b"kernel32", b"LoadLibraryA")]), 128),
              tlv.ptr(46, tlv.procinj_transform(b"\x90\x90", b"\xcc")), tlv.short(5, 10)]
@@ -155,7 +162,12 @@ def make_env():
     # a third shape: a configuration of the 3.x / 4.0-4.4 generation with the deprecated setting 36 as a SHORT (INJECT_OPTIONS;
     # newer configurations use that index for the watermark hash) and the legacy kill date fields
     legacy = tlv.block(tlv.http_config(key.publickey().export_key("DER"), extra=[tlv.short(36, 7), tlv.short(16, 2021), tlv.short(17, 12), tlv.short(18, 31)]))
-    blocks = {"synthetic": block, "minimal": minimal, "empty_recover": empty_recover, "legacy": legacy}
+    # a fourth shape: settings that occur twice (the mappings keep the last value; every view has to agree on that)
+    # (the repetitions stand early, in the middle and at the end of the block: views re-keyed from one another would misalign)
+    rl = tlv.http_config(key.publickey().export_key("DER"), host_header="Host: first.example\r\n")
+    repeated = tlv.block(rl[:2] + [tlv.short(5, 10), tlv.integer(3, 99)] + rl[2:6] + [tlv.ptr(26, b"PUT", 16)] + rl[6:]
+                         + [tlv.short(5, 25), tlv.ptr(8, b"second.example,/two", 256), tlv.integer(3, 1234), tlv.ptr(54, b"Host: second.example\r\n", 128), tlv.ptr(26, b"GET", 16)])
+    blocks = {"synthetic": block, "minimal": minimal, "empty_recover": empty_recover, "legacy": legacy, "repeated": repeated}
     env = {"key": key, "blocks": blocks}
     env["get_request"] = {}
     for nm, blk in blocks.items():
